@@ -380,6 +380,7 @@ type c17corr struct {
 	got        string
 	where      map[int]string
 	after      ast.Node
+	before     ast.Node
 	table      map[string][]string
 }
 
@@ -426,6 +427,7 @@ func c17prepare(src, tname string, table map[string][]string, env interface{}) (
 	tbl := c17tableSx(reg, config)
 	cc := &c17corr{src: src, tname: tname, where: where, table: table}
 	cc.line = L(A("STAGE"), tbl, L(tt...), before).String()
+	cc.before = cloneTree(tree.Node)
 	func() {
 		defer func() {
 			if r := recover(); r != nil {
@@ -437,6 +439,57 @@ func c17prepare(src, tname string, table map[string][]string, env interface{}) (
 		cc.after = tree.Node
 	}()
 	return cc, ""
+}
+
+type visitedRec struct{ seen map[ast.Node]bool }
+
+func (v *visitedRec) Enter(n *ast.Node) { v.seen[*n] = true }
+func (v *visitedRec) Exit(*ast.Node)    {}
+
+// missedSlot: the slot (Parent.Field) on the way to an occurrence that fits a candidate which ast.Walk
+// does not get into ("" when every such occurrence is reached).
+func missedSlot(before ast.Node, table map[string][]string) (res string) {
+	defer func() {
+		if recover() != nil {
+			res = ""
+		}
+	}()
+	rec := &visitedRec{map[ast.Node]bool{}}
+	root := before
+	ast.Walk(&root, rec)
+	var find func(n ast.Node, at, missed string) string
+	find = func(n ast.Node, at, missed string) string {
+		if missed == "" && !rec.seen[n] {
+			missed = at
+		}
+		if b, ok := n.(*ast.BinaryNode); ok && missed != "" {
+			if fn, _ := c17resolve(table, b.Operator, b.Left.Type(), b.Right.Type()); fn != "" {
+				return missed
+			}
+		}
+		for _, s := range reflSlots(n) {
+			if w := find(s.get(), kindOfNode(n)+"."+s.fname, missed); w != "" {
+				return w
+			}
+		}
+		return ""
+	}
+	return find(before, "root", "")
+}
+
+func (cc *c17corr) whereUnrewritten() string {
+	if cc == nil || cc.after == nil {
+		return "?"
+	}
+	if cc.before != nil {
+		if w := missedSlot(cc.before, cc.table); w != "" {
+			return w
+		}
+	}
+	if w := firstUnrewritten(cc.after, cc.table, "root"); w != "" {
+		return w
+	}
+	return "rewritten-differently"
 }
 
 // firstUnrewritten names the slot of the highest sub-tree in which occurrences that fit a candidate were
@@ -603,13 +656,8 @@ func runC17(c *Ctx) {
 				same = errClass(got) == "run-error"
 			}
 			if !same {
-				where := "?"
-				if cc, _ := c17prepare(p.src.op, p.tname, p.table, env); cc != nil && cc.after != nil {
-					where = firstUnrewritten(cc.after, p.table, "root")
-					if where == "" {
-						where = "all-rewritten"
-					}
-				}
+				cc, _ := c17prepare(p.src.op, p.tname, p.table, env)
+				where := cc.whereUnrewritten()
 				violateKeyed(r, Violation{What: "operator form and explicit-call form evaluate differently (first occurrence left unrewritten at: " + where + ")",
 					Key:    "c17:operator-vs-call:" + where,
 					Input:  map[string]interface{}{"operator_form": p.src.op, "call_form": p.src.call, "overloads": p.table, "env": fmt.Sprintf("%T", env), "optimize": optz},
@@ -645,13 +693,7 @@ func runC17(c *Ctx) {
 			r.Mismatch("patchops", cc.src+" "+lines[2*i], model, cc.got)
 		}
 		if spec != cc.got {
-			where := "?"
-			if cc.after != nil {
-				where = firstUnrewritten(cc.after, cc.table, "root")
-				if where == "" {
-					where = "rewritten-differently"
-				}
-			}
+			where := cc.whereUnrewritten()
 			violateKeyed(r, Violation{What: "the tree after compiler.PatchOperators is not the explicit-call form (occurrence fitting a candidate left as operator, or rewritten differently) at " + where,
 				Key: "c17:occurrence-not-rewritten:" + where, Input: map[string]interface{}{"source": cc.src, "overloads": cc.table}, Expect: spec, Got: cc.got})
 		}
